@@ -1,4 +1,5 @@
 import sys
+import builtins
 import collections
 import pickle
 from importlib import import_module
